@@ -107,6 +107,11 @@ def build_state(case):
         ok = p.place_task(t, execution_strategy=s, worker_id=w.id)
         assert ok
         t.start(T(start))
+        if r.get("overrun") and now - start > 0:
+            # what Task.start(time, variance=v) does when runtime variance is configured: the task runs longer than the
+            # runtime of its strategy.  Capped by the time already spent, so that what is left never exceeds the strategy's
+            # runtime (a planner can only assume the strategy's runtime from now on; a larger overrun is unknowable).
+            t.update_remaining_time(t.remaining_time + T(min(r["overrun"], now - start)))
         if now - start > 0:
             t.step(T(start), T(now - start))
     # scheduled-for-later tasks
